@@ -46,6 +46,15 @@ Theorem C02_stored : forall fe dest_fixed n, In n [1; 2; 4; 8]%nat ->
 Proof. intros. apply stored_exact; assumption. Qed.
 Print Assumptions C02_stored.
 
+(* comparisons mixing integer and fixed-point operands compare the scaled
+   integers (comparison() scales the integer side), which is comparing the
+   rationals; that the jump tests this comparison of the two operand
+   expressions is C03's theorem about cmp_impl *)
+Theorem C02_comparisons : forall fa fb A B,
+  let '(A', B') := cmp_scaled fa fb A B in (A' ?= B') = (rep A fa ?= rep B fb)%Q.
+Proof. exact cmp_scaled_spec. Qed.
+Print Assumptions C02_comparisons.
+
 (* `ok` excludes negative operands of the (unsigned) divisions - recorded finding: *)
 Theorem C02_refuted_negative : exists e,
   stored (to_dest false (e, true)) 8 <> exact (to_dest false (e, true)) mod 256 ^ 8 /\
